@@ -11,6 +11,7 @@
 From Coq Require Import List String Bool Permutation.
 From SCC Require Import Lang.FunSyn Model.Check Sem.FunTyping Sem.FunErase Proof.CheckWitness Proof.CheckAnn Proof.TypingReject Proof.CheckMono Proof.CheckProof.
 From SCC Require Import Proof.PrintInj Proof.CheckPoly Proof.CheckPolySound Proof.CheckPolyProg Proof.CheckPolyProgC Proof.CheckPolyProof.
+From SCC Require Import Sem.FunNames Sem.FunClosed Proof.CheckInst.
 Import ListNotations.
 
 (* Soundness, full statement: `forall p q, check p = COk q -> has_type p`.  False: an ill-formed
@@ -271,3 +272,72 @@ Theorem C15_names_guard_needed :
   ~ (forall p q, decl_types_wf (tdecls (fpdecls p)) = true -> check p = COk q -> has_type p).
 Proof. exact check_sound_without_names_guard_refuted. Qed.
 Print Assumptions C15_names_guard_needed.
+
+(* ---------- the instance table ----------
+   Instances are keyed by PRINTED names (`List[i64]`, `Pair[i64, List[i64]]`); later stages find the
+   declaration of a type by that name (fun2core::compile_ty, lookup_type_declaration: "Type .. not found").
+   (a) printing is injective in (head, arguments) for identifier-like names - two different instances never
+       share a name, and no parsed declaration can be named like an instance; without the condition it is not; *)
+Theorem C15_instance_names_injective : forall n1 a1 n2 a2,
+  name_ok n1 = true -> name_ok n2 = true -> tys_names_ok a1 = true -> tys_names_ok a2 = true ->
+  print_ty (FDecl n1 a1) = print_ty (FDecl n2 a2) -> n1 = n2 /\ a1 = a2.
+Proof.
+  intros n1 a1 n2 a2 H1 H2 A1 A2 E.
+  assert (FDecl n1 a1 = FDecl n2 a2) as Heq by (apply print_ty_inj; [rewrite ty_names_ok_decl, H1, A1|rewrite ty_names_ok_decl, H2, A2|exact E]; reflexivity).
+  inversion Heq. auto.
+Qed.
+Print Assumptions C15_instance_names_injective.
+Example C15_instance_names_collide_without_guard :
+  print_ty (FDecl "List" [FI64]) = print_ty (FDecl "List[i64]" [])
+  /\ print_ty (FDecl "P" [FDecl "A" []; FDecl "B" []]) = print_ty (FDecl "P" [FDecl "A, B" []])
+  /\ print_ty (FDecl "P" [FI64]) = print_ty (FDecl "P" [FDecl "i64" []]).
+Proof. exact print_collision_without_name_ok. Qed.
+Print Assumptions C15_instance_names_collide_without_guard.
+(* (b) the declarations of the checked program have pairwise different names ... *)
+Theorem C15_instance_names_distinct : forall p q,
+  prog_names_ok p = true -> check p = COk q -> NoDup (decl_names q).
+Proof. exact (check_instance_names_distinct true). Qed.
+Print Assumptions C15_instance_names_distinct.
+(* ... and each of them is a declared template instantiated (positionally) at well-formed type arguments,
+   under the printed name of that instance; *)
+Theorem C15_instances_are_instantiated_templates : forall p q,
+  prog_names_ok p = true -> check p = COk q ->
+  Forall (is_data_instance (tdecls (fpdecls p))) (fcpdata q) /\ Forall (is_codata_instance (tdecls (fpdecls p))) (fcpcodata q).
+Proof. exact (check_instances_spec true). Qed.
+Print Assumptions C15_instances_are_instantiated_templates.
+(* (c) closure. [defs_closed q] (Sem/FunClosed.v): every type of a definition signature, every let annotation,
+   every annotation of a variable / call / constructor / destructor / `new` term and every type argument of a
+   destructor call or case is i64 or has a declaration in q under its printed name.  These are the types of all
+   producers, i.e. everything a later stage looks up.  GAP to the full statement [fcprog_closed]: the field types
+   of the instance declarations, the binder contexts of clauses and the annotations merely passed down
+   (if / print / let / label / goto / exit / case) need not be declared - see the refutation below. *)
+Theorem C15_output_closed_partial : forall p q,
+  prog_names_ok p = true -> check p = COk q -> defs_closed q = true.
+Proof. exact (check_output_closed true). Qed.
+Print Assumptions C15_output_closed_partial.
+(* the declared names are closed under type arguments: with `List[Pair[i64, Foo]]` also `Pair[i64, Foo]` and `Foo` *)
+Theorem C15_instances_closed_under_type_arguments : forall p q n a,
+  prog_names_ok p = true -> check p = COk q -> name_ok n = true -> tys_names_ok a = true ->
+  In (print_ty (FDecl n a)) (decl_names q) -> forallb (ty_declared (decl_names q)) a = true.
+Proof. exact (check_instances_closed_under_targs true). Qed.
+Print Assumptions C15_instances_closed_under_type_arguments.
+(* full closure is FALSE of the faithful model and of the real checker (corpus/fun/c15_unused_field_type.sc,
+   c15_unused_instance_field.sc): create_instance inserts the substituted field types without Ty::check, clause
+   binders are not checked either.  Not a defect by itself: the program is well-typed, and no later stage looks the
+   undeclared type up (C12's stage checkers and all three code generators accept the witnesses). *)
+Theorem C15_output_closed_refuted : ~ (forall p q, has_type p -> check p = COk q -> fcprog_closed q = true).
+Proof. exact output_closed_refuted. Qed.
+Print Assumptions C15_output_closed_refuted.
+Example C15_output_closed_witness :
+  prog_names_ok p_unused_field_type = true /\ has_type_b p_unused_field_type = true
+  /\ exists q, check p_unused_field_type = COk q /\ decl_names q = ["Foo"%string] /\ defs_closed q = true /\ fcprog_closed q = false.
+Proof. exact unused_field_type_witness. Qed.
+Print Assumptions C15_output_closed_witness.
+(* (d) the internal panic of check_with_table ("Couldn't find constructor .. in symbol_table") is unreachable:
+   once the definitions are checked, every instance has all its xtor instances *)
+Theorem C15_collect_cannot_panic : forall p st defs st1,
+  prog_names_ok p = true -> build_symbol_table p = COk st ->
+  check_defs (defs_of (fpdecls p)) st = COk (defs, st1) ->
+  exists das cos, collect_types st1 (st_types st1) = COk (das, cos).
+Proof. exact (collect_cannot_panic true). Qed.
+Print Assumptions C15_collect_cannot_panic.
